@@ -860,7 +860,7 @@ class ArrayConverter(Converter):
         return TrackedArray(obj, converter.attr, dbval)
 
     def val2dbval(converter, val, obj=None):
-        if converter.attr.nullable and val is None:
+        if val is None and (converter.attr is None or converter.attr.nullable):
             return val
         return list(val)
 
